@@ -657,11 +657,21 @@ def do_enum(w, op):
         w.interesting = True
     if len(stored.t) > 24 or stored.degree() > 4:
         return "skipped"
+    kw = {}
+    if op.get("lam") and A.t not in DEG2 and form != "to_enumerated":
+        # the penalty must dominate the coefficient of every reduced term of the BOOLEAN form the reduction works on
+        bform = stored.to_bool() if w.kind == SPIN else stored
+        big = float(max((abs(v) for v in bform.t.values()), default=0)) + 1
+        kw["lam"] = big if op["lam"] == "big_const" else (lambda v: 2 + abs(v))      # >= |v| for the very term being reduced
+        if op.get("pairs"):
+            kw["pairs"] = {tuple(dec_label(x) for x in pr) for pr in op["pairs"]}
+        w.probe("reduction_with_explicit_lam_or_pairs")
+        where += " lam=%s pairs=%r" % (op["lam"], op.get("pairs"))
     try:
         if deg and form in ("to_pubo", "to_puso") and A.t not in DEG2:
-            D = getattr(o, form)(deg=deg)
+            D = getattr(o, form)(deg=deg, **kw)
         else:
-            D = getattr(o, form)()
+            D = getattr(o, form)(**kw)
     except Exception as e:
         w.check_untouched(set(), where)
         w.fail("reduced_form_raises", "%s: %s: %s" % (where, type(e).__name__, e))
